@@ -1,5 +1,6 @@
 (* C06 model driver: executes a session script on the extracted Coq model
-   (Session/InputDefs.v: c06_step) and prints one canonical observation line per script line,
+   (Session/InputDefs.v: c06_step; Session/InputWorld.v: c06_ustep = the same plus the UDP channel
+   and connections on hold) and prints one canonical observation line per script line,
    in the format of harness/vdrv_input.c.  Parsing and printing only. *)
 open Model
 open Vutil
@@ -58,7 +59,7 @@ let print_state (tag : string) (s : server) (evs : event list) : unit =
     (match s.s_owner with Some h -> string_of_int (int_of_z h) | None -> "-")
 
 let variant : z ref = ref (z_of_int 0)
-let srv : server option ref = ref None
+let wld : uworld option ref = ref None
 let npw = ref 0
 
 let has_client (s : server) (id : int) =
@@ -67,14 +68,15 @@ let has_client (s : server) (id : int) =
 let () =
   let zi s = z_of_int (int_of_string s) in
   let bi s = int_of_string s <> 0 in
-  let doop tag (o : op) =
-    match !srv with
+  let douop tag (o : uop) =
+    match !wld with
     | None -> ()
-    | Some s -> let (s', evs) = c06_step s o in srv := Some s'; print_state tag s' evs in
+    | Some u -> let (u', evs) = c06_ustep u o in wld := Some u'; print_state tag u'.u_srv evs in
+  let doop tag (o : op) = douop tag (UOp o) in
   iter_lines stdin (fun line ->
     match split_ws line with
     | [] -> ()
-    | "case" :: _ -> srv := None; print_endline line
+    | "case" :: _ -> wld := None; print_endline line
     | "screen" :: w :: h :: np :: fvo :: nev :: alw :: dd :: dp :: u8 :: var ->
         npw := int_of_string np;
         let v = match var with [x] -> zi x | _ -> z_of_int 0 in
@@ -82,19 +84,26 @@ let () =
         let cfg = { g_w = zi w; g_h = zi h; g_haspw = int_of_string np > 0; g_firstvo = zi fvo;
                     g_never = bi nev; g_always = bi alw; g_dontdisc = bi dd; g_deferptr = zi dp;
                     g_utf8cb = bi u8; g_variant = v } in
-        let s = init_server cfg in
-        srv := Some s; print_state "screen" s []
+        let u = init_world cfg in
+        wld := Some u; print_state "screen" u.u_srv []
     | ["sx"; fw; tw; x] ->
         let f v = match v with Some r -> string_of_int (int_of_z r) | None -> "undef" in
         let cfg0 = { g_w = z_of_int 1; g_h = z_of_int 1; g_haspw = false; g_firstvo = z_of_int 0; g_never = false;
                      g_always = false; g_dontdisc = false; g_deferptr = z_of_int 0; g_utf8cb = false; g_variant = !variant } in
         let r = f (scale_v cfg0 (zi x) (zi fw) (zi tw)) in
         Printf.printf "sx %s %s\n" r r
-    | _ when !srv = None -> Printf.printf "?? no screen: %s\n" line
+    | _ when !wld = None -> Printf.printf "?? no screen: %s\n" line
     | ["connect"; id; vo] ->
-        (match !srv with
-         | Some s when has_client s (int_of_string id) -> Printf.printf "?? %s\n" line
+        (match !wld with
+         | Some u when has_client u.u_srv (int_of_string id) -> Printf.printf "?? %s\n" line
          | _ -> doop "connect" (OConnect (zi id, bi vo)))
+    | ["hconnect"; id; vo] ->
+        (match !wld with
+         | Some u when has_client u.u_srv (int_of_string id) -> Printf.printf "?? %s\n" line
+         | _ -> douop "hconnect" (UConnectHold (zi id, bi vo)))
+    | ["release"; id] -> douop "release" (URelease (zi id))
+    | ["udpon"; h] -> douop "udpon" (UUdpOn (bi h))
+    | "udp" :: rest -> douop "udp" (UUdp (bytes_of_hex (match rest with [f] -> f | _ -> "")))
     | "send" :: id :: rest ->
         doop "send" (OSend (zi id, frags_of (match rest with [f] -> f | _ -> "")))
     | ["eof"; id] -> doop "eof" (OEof (zi id))
@@ -109,11 +118,11 @@ let () =
             let sz = if !off + sz > 16 then 16 - !off else sz in
             frs := List.init sz (fun _ -> ztab.(0)) :: !frs; off := !off + sz end) sizes;
         if !off < 16 then frs := List.init (16 - !off) (fun _ -> ztab.(0)) :: !frs;
-        (match !srv with
-         | Some s ->
-             let (s1, _) = c06_step s (OAuthRes (zi id, if k >= 0 && k < !npw && k < 8 then Some (z_of_int k) else None)) in
-             let (s2, evs) = c06_step s1 (OSend (zi id, List.rev !frs)) in
-             srv := Some s2; print_state "auth" s2 evs
+        (match !wld with
+         | Some u ->
+             let (u1, _) = c06_ustep u (UOp (OAuthRes (zi id, if k >= 0 && k < !npw && k < 8 then Some (z_of_int k) else None))) in
+             let (u2, evs) = c06_ustep u1 (UOp (OSend (zi id, List.rev !frs))) in
+             wld := Some u2; print_state "auth" u2.u_srv evs
          | None -> ())
     | ["vo"; id; v] -> doop "vo" (OViewOnly (zi id, bi v))
     | ["tick"; ms] -> doop "tick" (OTick (zi ms))
